@@ -32,7 +32,11 @@ Inductive case :=
 (* composite splitters: item = (bytes, oracle flags, observed class: 0 = a length
    guard refused, 1 = passed the guards (whatever happened later), 2 = the
    embedded point/key did not decode) *)
-| CSplit (id kind : Z) (params : list Z) (items : list (list Z * Z * Z)).
+| CSplit (id kind : Z) (params : list Z) (items : list (list Z * Z * Z))
+(* residue group with parameters P, Q; n = PointLen *)
+| CResidue (id P Q n : Z) (items : list (list Z * option (list Z)))
+(* generic Edwards curve a x^2 + y^2 = 1 + d x^2 y^2 over GF(p); n = PointLen *)
+| CEdGen (id p a d n : Z) (items : list (list Z * option (list Z))).
 
 Definition ed_enc {F} (O : fops F) (P : @ept F) : list Z := ed_encode_xy O (eX P) (eY P).
 
@@ -76,6 +80,17 @@ Definition check (c : case) : option Z :=
         else split_class_opt (anon_split (pnat ps 0) (pnat ps 1) (pnat ps 2) (pnat ps 3) (pnat ps 4)
                                 (Z.odd fl) (Z.odd (fl / 2)) b) in
       if forallb (fun it => cls it =? snd it) items then None else Some id
+  | CResidue id P Q n items =>
+      let O := bz_ops P in
+      if forallb (fun it => same (residue_encode (Z.to_nat n)) (residue_decode O P Q (fst it)) (snd it)) items
+      then None else Some id
+  | CEdGen id p a d n items =>
+      let O := bz_ops p in
+      let fa := fofZ O a in let fd := fofZ O d in
+      let i := if p mod 4 =? 3 then f0 O else fpow O (fofZ O 2) ((p - 1) / 4) in
+      let nn := Z.to_nat n in
+      if forallb (fun it => same (edg_encode O nn) (edg_decode O p fa fd i nn (fst it)) (snd it)) items
+      then None else Some id
   end.
 
 Definition mismatches (cs : list case) : list Z :=
